@@ -223,9 +223,13 @@ def _run_plain(sub, rep, tier, seed, shard, nshards):
             rep["evaluations"] += 1
             continue
         except Violation as v:
-            rep["failure"] = {"case": jsonable(case), "message": str(v)}
+            # enumerated sub-checks go on after a failure so that every root cause is listed (first one is the replay)
+            if rep["failure"] is None:
+                rep["failure"] = {"case": jsonable(case), "message": str(v), "also": []}
+            elif len(rep["failure"]["also"]) < 25:
+                rep["failure"]["also"].append(str(v)[:300])
             rep["evaluations"] += 1
-            return
+            continue
         _absorb(rep, case, info)
 
 
@@ -441,6 +445,8 @@ def run_property(pid, modname, tier, seed, jobs, level="exploration", assumption
     for name, path, msg in violations:
         print(f"VIOLATION property={pid} replay={path}")
         print(f"  sub-check {name}: {msg[:1500]}")
+        for extra in (merged[name]["failure"].get("also") or [])[:25]:
+            print(f"    also: {extra}")
     for name, err in errors:
         print(f"HARNESS-ERROR property={pid} sub-check {name}:\n{err}", file=sys.stderr)
     print(f"{pid} {tier} seed={seed}: {evaluations} cases, {distinct} distinct non-trivial, "
